@@ -119,7 +119,7 @@ def _alarm(*_a):
 def build_from(cfgd):
     return algos.build(cfgd["alg"], cfgd["vtype"], pop=cfgd["pop"], off=cfgd.get("off"), seed=cfgd["seed"],
                        constrained=cfgd.get("constrained", False), variator=cfgd.get("variator"),
-                       window=cfgd.get("window"), inject=cfgd.get("inject", 0), **cfgd.get("extra", {}))
+                       window=cfgd.get("window"), inject=cfgd.get("inject", 0), nobjs=cfgd.get("nobjs"), **cfgd.get("extra", {}))
 
 
 def pilot_boundaries(cfgd, nsteps=5):
@@ -239,8 +239,11 @@ def trace_run(cfgd, budgets):
         aborted = "timeout"
         findings.append(("step-does-not-return", "a step did not return within %ds (non-termination)" % STEP_TIMEOUT_S))
     except Exception as e:  # noqa: BLE001
+        import traceback
         msg = "%s: %s" % (type(e).__name__, e)
-        if any(r in msg for r in REJECTED_ERRORS):
+        tb = traceback.format_exc()
+        if any(r in msg for r in REJECTED_ERRORS) or (isinstance(e, ZeroDivisionError) and "_update_utility" in tb):
+            # MOEAD._update_utility divides by the previous scalarised fitness, which is 0.0 when a member sits on the ideal point
             aborted = "rejected-input: " + msg
         else:
             aborted = "exception: " + msg
@@ -326,6 +329,27 @@ def configs(ctx):
             out.append({"alg": alg, "vtype": "real", "pop": 4, "off": 2, "window": [1, 3, 1, 2], "seed": seedbase + len(out)})
         if alg == "MOEAD":
             out.append({"alg": alg, "vtype": "real", "pop": 3, "off": 3, "extra": {"update_utility": 2}, "seed": seedbase + len(out)})
+            # MOEA/D: utility-based search on/off x weight generator (library default, normal boundary, a tiny user generator with 2-4
+            # fixed vectors) x 2-10 weight vectors x 2-3 objectives; neighbourhood <= population
+            pops = [2, 3, 4, 5, 6, 10]
+            nbw = {2: [1, 2, 3, 4, 5, 9], 3: [1, 2, 3]}           # divisions_outer -> 2,3,4,5,6,10 resp. 3,6,10 weight vectors
+            for nobjs in (2, 3):
+                for uu in (None, 1, 5):
+                    fam = [None] * len(pops), [["nbw", d] for d in nbw[nobjs]], [["fixed", n] for n in (2, 3, 4)]
+                    picks = []
+                    for j, p in enumerate(pops):
+                        if ctx.thorough or (j + nobjs + (uu or 0) + ctx.seed) % 3 == 0:
+                            picks.append((None, p))
+                    for j, w in enumerate(fam[1]):
+                        if ctx.thorough or (j + (uu or 0) + ctx.seed) % 2 == 0:
+                            picks.append((w, 0))
+                    picks += [(w, 0) for w in fam[2]]
+                    for w, p in picks:
+                        ex = {"weights": w, "neighborhood_size": 2 + (len(out) % 3)}
+                        if uu is not None:
+                            ex["update_utility"] = uu
+                        out.append({"alg": alg, "vtype": "real", "pop": p, "off": p, "nobjs": nobjs, "extra": ex, "few_budgets": True,
+                                    "seed": seedbase + len(out)})
     return out
 
 
@@ -339,7 +363,7 @@ def budget_sequences(ctx, bounds, quick_n):
             if n >= 0:
                 seqs.append([n])
     steps = [bounds[0]] + [b - a for a, b in zip(bounds, bounds[1:])]
-    typical = steps[-1] if steps else 1
+    typical = max(1, steps[-1] if steps else 1)
 
     def second(cur):
         # budget relative to the current position: 0, 1, j*step-1, j*step, j*step+1
@@ -402,8 +426,9 @@ def run(ctx):
         try:
             bounds = pilot_boundaries(cfgd)
         except Exception as e:  # noqa: BLE001
+            import traceback
             msg = "%s: %s" % (type(e).__name__, e)
-            if any(r in msg for r in REJECTED_ERRORS):
+            if any(r in msg for r in REJECTED_ERRORS) or (isinstance(e, ZeroDivisionError) and "_update_utility" in traceback.format_exc()):
                 dist["rejected_inputs"] += 1
                 continue
             ctx.violation("%s:step-raised" % cfgd["alg"], "step() raised %s on %r" % (msg, cfgd), {"kind": "trace", "config": cfgd, "budgets": [bounds_default(cfgd)], "finding": "run-raised"})
@@ -411,7 +436,7 @@ def run(ctx):
         if not bounds or any(b <= a for a, b in zip([0] + bounds, bounds)):
             # the pilot itself saw a step without progress: let the traced run report it
             bounds = [b for b in bounds if b > 0] or [max(cfgd["pop"], 1)]
-        for budgets in budget_sequences(ctx, bounds, ctx.scale(9, 40)):
+        for budgets in budget_sequences(ctx, bounds, ctx.scale(6 if cfgd.get("few_budgets") else 9, 40)):
             res = trace_run(cfgd, budgets)
             ctx.count()
             report(ctx, cfgd, budgets, res)
@@ -469,7 +494,10 @@ def run(ctx):
     ctx.coverage["rejected_configurations"] = (
         "size parameters of 0 are rejected inputs (DESIGN.md section 7: initialize evaluates nothing, nfe stays 0, run() spins; the model agrees: "
         "theorem c08_zero_size_no_progress); sizes below the documented minimum of an algorithm (GDE3 < 4, SPEA2 < 3, IBEA < 2, CMAES < 2) raise in the "
-        "constructor or first step and are not run; IBEA raising 'objective with empty range' on a degenerate population is counted under rejected_inputs")
+        "constructor or first step and are not run; IBEA raising 'objective with empty range' on a degenerate population and MOEAD._update_utility raising ZeroDivisionError "
+        "(it divides by the previous scalarised fitness, 0.0 when a member sits on the ideal point; seen with random_weights(3, population_size=2)) are "
+        "exceptions unrelated to the budget clauses and are counted under rejected_inputs; MOEA/D with 2-4 weight vectors and neighbourhood <= population runs "
+        "normally on the unchanged tree")
     ctx.coverage["rejected_config_probe"] = zero_size_probe()
     ctx.rule = ("traces = every shipped algorithm x size configurations (1 where legal, odd sizes with two-child variators, offspring < parents, one-child and "
                 "three-child variators, warm starts through InjectedPopulation with k <, = and > population_size already-evaluated solutions (end-to-end clause: the "
